@@ -24,7 +24,7 @@ SerOk(r) == r.text = r.ref /\ r.probe_before = r.probe_after /\ (Comma(r.probe_a
 StepOfImpl(s, r) == [ok |-> CASE r.e = "parse" -> ParseOk(r) /\ (Comma(r.probe_before) <=> r.loc = "xx_COMMA")
                              [] r.e = "install" -> InstallOk(r) [] r.e = "ser" -> SerOk(r) [] OTHER -> FALSE, st |-> s]
 TraceLog == ndJsonDeserialize(IOEnv.TRACE)
-T == INSTANCE TraceBase WITH Log <- TraceLog, InitSt <- 0, StepOf <- StepOfImpl
+T == INSTANCE TraceBase WITH Log <- TraceLog, InitSt <- 0, StepOf <- StepOfImpl, ResyncAtNew <- FALSE
 Spec == T!Spec
 Done == T!Done
 ====
